@@ -309,6 +309,10 @@ def run_driver(ctx, mode, label, args):
     ctx.extra.setdefault("events_by_kind", {})
     for k, v in summ["extra"]["events_by_kind"].items():
         ctx.extra["events_by_kind"][k] = ctx.extra["events_by_kind"].get(k, 0) + v
+    # the leaves of the layouts were planned by the real broker state manager (event Plan) and none of its plans was foreign
+    # to its layout without the specification saying so (a foreign plan is a rejected Plan event, never silence)
+    if mode != "probe2" and not summ["extra"]["events_by_kind"].get("Plan"):
+        raise vcore.Unresolved("the query driver (%s) never asked the broker state manager for a plan" % mode)
     return tr
 
 
